@@ -102,6 +102,26 @@ def forbidden_scan():
     return hits
 
 
+def failing_decls(log):
+    """map `error: <file>:<line>:` of a lake log to the enclosing theorem/def"""
+    out = []
+    for m in re.finditer(r"error: (\S+?\.lean):(\d+):(\d+): (.*)", log):
+        path, line, msg = m.group(1), int(m.group(2)), m.group(4)
+        full = path if os.path.isabs(path) else os.path.join(LEAN, path)
+        name = "?"
+        try:
+            src = open(full).read().split("\n")
+            for i in range(min(line, len(src)) - 1, -1, -1):
+                mm = re.match(r"^(?:private\s+|protected\s+)?(theorem|lemma|def|example|instance)\s*(\S*)", src[i])
+                if mm:
+                    name = (mm.group(2) or "example") + f" ({mm.group(1)})"
+                    break
+        except OSError:
+            pass
+        out.append({"file": os.path.relpath(full, LEAN), "line": line, "decl": name, "message": msg[:300]})
+    return out
+
+
 def lean_prove(prop, thorough):
     """lake build of the property module and the driver; axiom audit.  Returns dict."""
     res = {"built": False, "log": "", "theorems": [], "axioms": {}, "bad_axioms": {}, "examples": 0,
@@ -112,6 +132,7 @@ def lean_prove(prop, thorough):
         text = (out + err).decode(errors="replace")
         res["log"] = text[-6000:]
         if rc != 0:
+            res["failing"] = failing_decls(text)
             # the driver alone may still build: needed for the search
             rc2, o2, e2, _ = run(["lake", "build", "driver"], cwd=LEAN, timeout=3600)
             res["driver_built"] = rc2 == 0
@@ -264,7 +285,12 @@ def main():
     if not args.skip_lean:
         lean = lean_prove(prop, tier == "thorough")
     if not lean["built"] and not args.skip_lean:
-        broken.append(("lean-build", prop_module(prop), lean["log"][-3000:]))
+        fd = lean.get("failing", [])
+        if fd:
+            for x in fd[:10]:
+                broken.append(("theorem-no-longer-checks", f"{x['file']}:{x['line']} {x['decl']}", x["message"]))
+        else:
+            broken.append(("lean-build", prop_module(prop), lean["log"][-3000:]))
     for n, bad in lean.get("bad_axioms", {}).items():
         broken.append(("axioms", n, ",".join(bad)))
     for h in lean.get("forbidden", []):
